@@ -134,7 +134,15 @@ def run(prop, tier):
         for e in evs[1:4]:
             out.sample({"call": e.get("call"), "out": e.get("out"),
                         "pre_kids": e.get("pre", {}).get("kids"), "post_kids": e.get("post", {}).get("kids")})
-        out.evaluations = edges + walk_steps + rstats["steps"]
+        extra_eval = 0
+        if prop == "C13":
+            # value / data setters and the create_* factories (exception classes, no panic, atomic failure)
+            import domtext
+            tot = domtext.run_chardata(out, prop, tier, wd)
+            names = domtext.run_factory(out, prop, tier, wd)
+            extra_eval = tot["events"] + 4 * names
+            out.extra.update({"chardata_events": tot["events"], "factory_names": names})
+        out.evaluations = edges + walk_steps + rstats["steps"] + extra_eval
         out.nontrivial_count = edges
         out.extra.update({"edges_replayed": edges, "graph_walk_steps": walk_steps,
                           "recorded_history_steps": rstats["steps"], "recorded_queries": rstats.get("queries", 0)})
